@@ -10,17 +10,22 @@ for sid in sorted(os.listdir(os.path.join(VERIF, 'seeded'))):
     if os.path.exists(f):
         rows.append(json.load(open(f)))
 props = sorted({m['property'] for m in rows})
+nwaves = max(m['wave'] for m in rows)
 lines = ['### 10.5 Sensitivity: seeded changes and the checks that catch them', '',
-         'Four waves of independent sub-agents (20 agents per wave, one per property, each given only the property record and a',
-         'scratch worktree; from the second wave on also one-line summaries of the changes delivered before, and a steer away from',
-         'the kinds of slip used most - the fourth wave was sent to files outside the anchors, to regressions of well-meant bug fixes,',
-         'to single functions and to call sequences) delivered 240 changes that break a property while the pinned 44 tests (and, for',
-         'all but three, the 119 examples of `test/test.py`) still pass, each with a demonstration.  `tools/seeded.py` confirms every',
+         f'{nwaves} waves of independent sub-agents (waves 1-4: 20 agents per wave, one per property; waves 5 and 6: ten properties each, together all',
+         'twenty once more; each agent given only the property record and a scratch worktree; from the second wave on also one-line summaries of the',
+         'changes delivered before, and a steer away from the kinds of slip used most - the fourth wave was sent to files outside the anchors, to',
+         'regressions of well-meant bug fixes, to single functions and to call sequences; the fifth and sixth to *legal inputs a generator written by',
+         'somebody else would probably not produce*: value domains, spellings, rarely given arguments, one-cell areas, many sheets) delivered',
+         f'{len(rows)} changes that break a property while the pinned 44 tests (and, for nearly all, the 119 examples of `test/test.py`) still pass,',
+         'each with a demonstration.  `tools/seeded.py` confirms every',
          'change (applies, pinned tests pass, demonstration fails with it and passes without it) and runs the quick tier of the checks',
          'against it; `seeded/<id>/meta.json` and `seeded/README.md` have the details.  Changes whose mechanism disappeared under a',
          'repository fix were re-based by hand where the slip still makes sense and marked obsolete where it does not.  The first run',
-         'of the fourth wave against the checks as they stood caught 19 of 60; every miss was traced to a generator that did not reach',
-         'the input (or the call sequence) and the generators were extended - the table shows the state after that.', '',
+         'of the fourth wave against the checks as they stood caught 19 of 60, the first run of the fifth 11 of 27; every miss was traced to a',
+         'generator that did not reach the input (or the call sequence) - or, twice in wave 5, to an oracle that was too weak (C10: two spellings of',
+         'one text satisfied every law while being unequal; C01: no assertion about numbers of 1e15 and more under &) - and the checks were extended;',
+         'the table shows the state after that.', '',
          '| property | kept | caught by its own check | caught only by another check | not caught |', '|---|---|---|---|---|']
 tot = [0, 0, 0, 0]
 for p in props:
@@ -57,6 +62,12 @@ lines += ['What the rounds taught (each item is a lane that now exists because a
           '  zeros / FALSE / empty text as overrides over non-blank content, None overrides, plain dates; overrides in two consecutive calls,',
           '  whole-sheet reads directly after set_cells, Cell objects changed in place and handed over again; chart sheets, array formulas and',
           '  date-like criteria in the C09 pool with children in other time zones; harness-owned thread schedules; sparse sheets in the timed lane;',
+          '* *waves 5 and 6 (legal but unlikely inputs)*: doubles of 2**53 .. 1e300 from overrides, literals and quotients (C01), the decade 1e15 .. 1e16',
+          '  where the exponent form begins (C01, C17), wildcard and tilde characters in texts that are operands, not criteria (C01, C10), a cell against',
+          '  the literal that spells the same text (C10), every Excel error value under IFERROR (C13), long-mantissa floats read back exactly and workbooks of',
+          '  12+ sheets x 13 columns (C02), blank-only texts and python-float words among COUNT arguments (C11), blanks inside criteria and texts inside',
+          '  sum ranges (C12), keys that differ in the 13th digit, computed (float) INDEX positions, a zero index outside the area (C14), line breaks under',
+          '  SEARCH wildcards (C17), sign runs in front of a ROUND operand (C16);',
           '* *defects of the unchanged tree that wave 4 surfaced* (remarks of the authors, or found by the extended generators) are in 10.3 / Appendix C 24;',
           '* *harness faults found by seeded changes* are listed in Appendix C (items 9-14, 16-18).', '']
 text = '\n'.join(lines)
